@@ -255,6 +255,23 @@ class SelWorld:
         if self.kinds[l] == "relay":
             self._forward_relay(l)
 
+    def _DeliverJoined(self, l, p):
+        """the two oldest units towards p's end arrive in one read"""
+        if self.kinds[l] == "relay":
+            self._forward_relay(l)
+        link, frm = self._src(l, p)
+        out = link.ends[frm].out
+        u1, u2 = classify(out[0]), classify(out[1])
+        out[0:2] = [out[0] + out[1]]
+        try:
+            link.deliver(frm)
+        except sim._ProtocolRaised:
+            link.do_cut()
+            link.observe_loss(1 - frm)
+        self.got[l][p] += [u1, u2]
+        if self.kinds[l] == "relay":
+            self._forward_relay(l)
+
     def _DeliverPart(self, l, p):
         if self.kinds[l] == "relay":
             self._forward_relay(l)
@@ -394,6 +411,10 @@ GOALS = {
     "winner_lost": "winner # \"-\" /\\ st[winner].S = \"lost\"",
     # a deadline with a half-delivered unit pending
     "deadline_with_partial": "\\E p \\in Party : deadline[p] /\\ \\E l \\in Links : buf[l][p] = \"part\"",
+    # units coalesced by the network: handshake and decision in one read at R, both parties then hold the link; the relay's ok and
+    # the peer's handshake in one read
+    "joined_go_then_both": "last[1] = \"DeliverJoined\" /\\ last[3] = \"R\" /\\ result.R \\in Links /\\ result.S = result.R",
+    "joined_at_S": "last[1] = \"DeliverJoined\" /\\ last[3] = \"S\" /\\ result.S \\in Links",
     # both failed
     "both_failed": "result.S = \"failed\" /\\ result.R = \"failed\"",
     # one has a link, the other failed
